@@ -247,24 +247,7 @@ func genC07b(tier string, r *rng) {
 			samples = append(samples, p)
 		}
 	}
-	// a long fragment (beyond ReadAll's first 512-byte buffer) ending inside a multi-byte character, then an
-	// EMPTY or a 1-byte final fragment: the checker's byte accounting at the end of the message
-	for _, L := range []int{250, 255, 256, 509, 510, 511, 512, 513, 600, 1100} {
-		for _, server := range []bool{true, false} {
-			st := sideOf(server)
-			for _, tailP := range [][]byte{{0xe2, 0x82}, {0xc3}, {0xf0, 0x9f, 0x98}} {
-				for _, last := range [][]byte{{}, {0xac}, {0x41}} {
-					first := append(bytes.Repeat([]byte("a"), L), tailP...)
-					fs := []gframe{{false, 0, ws.OpText, first}, {true, 0, ws.OpContinuation, last}, {true, 0, ws.OpText, []byte("ok")}}
-					enc := encodeStream(fs, server, r)
-					k := []int{0, 1, 100}[(L+len(last))%3]
-					run(fmt.Sprintf("rm %d %s %d E", st, hx(enc), k))
-					run(fmt.Sprintf("rdd %d T %s %d E %d", st, hx(enc), k, L))
-					run(fmt.Sprintf("rdr %d utf8,inter %s %d E nf ra st nf ra st", st, hx(enc), k))
-				}
-			}
-		}
-	}
+	genLongFragment(tier, r)
 	for si, s := range samples {
 		for _, server := range []bool{true, false} {
 			st := sideOf(server)
@@ -313,7 +296,31 @@ func genC07b(tier string, r *rng) {
 	}
 }
 
+// genLongFragment: see the comment inside (C07 validity at the end of the message; C15 no panic / no
+// byte count beyond the caller's buffer).
+func genLongFragment(tier string, r *rng) {
+	// a long fragment (beyond ReadAll's first 512-byte buffer) ending inside a multi-byte character, then an
+	// EMPTY or a 1-byte final fragment: the checker's byte accounting at the end of the message
+	for _, L := range []int{250, 255, 256, 509, 510, 511, 512, 513, 600, 1100} {
+		for _, server := range []bool{true, false} {
+			st := sideOf(server)
+			for _, tailP := range [][]byte{{0xe2, 0x82}, {0xc3}, {0xf0, 0x9f, 0x98}} {
+				for _, last := range [][]byte{{}, {0xac}, {0x41}} {
+					first := append(bytes.Repeat([]byte("a"), L), tailP...)
+					fs := []gframe{{false, 0, ws.OpText, first}, {true, 0, ws.OpContinuation, last}, {true, 0, ws.OpText, []byte("ok")}}
+					enc := encodeStream(fs, server, r)
+					k := []int{0, 1, 100}[(L+len(last))%3]
+					run(fmt.Sprintf("rm %d %s %d E", st, hx(enc), k))
+					run(fmt.Sprintf("rdd %d T %s %d E %d", st, hx(enc), k, L))
+					run(fmt.Sprintf("rdr %d utf8,inter %s %d E nf ra st nf ra st", st, hx(enc), k))
+				}
+			}
+		}
+	}
+}
+
 func init() {
+	register("C15", genLongFragment)
 	register("C05", genC05)
 	register("C16", genC16r)
 	register("C07", genC07b)
